@@ -253,7 +253,8 @@ def arch_instances(level_text_):
 # ------------------------------------------------------------ mutation
 
 def mutate(rnd, s):
-    ops = ["del", "dup", "swap", "misspell", "bracket", "space-in-token", "insert"]
+    ops = ["del", "dup", "swap", "misspell", "bracket", "space-in-token", "insert", "newline",
+           "non-ascii"]
     op = rnd.choice(ops)
     if not s.strip():
         return s + "x x"
@@ -274,6 +275,12 @@ def mutate(rnd, s):
                 k = s.index(kw)
                 j = k + rnd.randrange(len(kw))
                 return s[:j] + rnd.choice(["", "x", " "]) + s[j + rnd.choice([0, 1]):]
+    if op == "newline":
+        # whitespace the grammars do NOT ignore
+        j = rnd.choice([0, len(s), i])
+        return s[:j] + rnd.choice(["\n", "\r", "\x0b", "\x0c", "\u00a0", "\u2003"]) + s[j:]
+    if op == "non-ascii":
+        return s[:i] + rnd.choice(["\u00b5", "\u00d1", "\u00e9", "\u0394", "\uff21"]) + s[i:]
     if op == "bracket":
         return s[:i] + rnd.choice("[]()") + s[i:]
     if op == "space-in-token":
@@ -355,9 +362,22 @@ def shard(tier, seed, shard, nshards):
         for _ in range(rnd.choice([1, 1, 2])):
             m = mutate(rnd, m)
         cases.append(("mutated", m, None))
+        # every string is also offered to the OTHER grammars' parsers (a text that belongs to
+        # one grammar must not be accepted by another entry point, whatever was parsed before)
+        for g2 in kinds:
+            if g2 != g and rnd.random() < 0.5:
+                cases.append(("cross:" + g2, text, None))
         for origin, t, want in cases:
             st.evaluations += 1
-            if "\n" in t:
+            if origin.startswith("cross:"):
+                g2 = origin[6:]
+                verdict, detail = judge(g2, t, *parsers[g2])
+                st.bump("verdicts", g2 + "/cross/" + verdict)
+                if verdict == "problem":
+                    st.violations.append({"property": ID, "known_finding": None,
+                                          "summary": "%s grammar offered a %s string %r: %s" % (
+                                              g2, g, t, detail),
+                                          "problems": [detail], "case": {"grammar": g2, "text": t}})
                 continue
             verdict, detail = judge(g, t, real, ref)
             st.bump("verdicts", g + "/" + origin + "/" + verdict)
